@@ -227,6 +227,10 @@ TMove ==
           \/ /\ "holder" \notin chk /\ cl.op = "maint" /\ holder[i] # NoC /\ holder[i] \notin dead
              /\ \E pl \in Cats : ReturnHeld(holder[i], i, pl)
              /\ UNCHANGED <<calls, taint>>
+          \* C14: finish() of a consumer returns its own messages only (clause `holder')
+          \/ /\ "holder" \notin chk /\ cl.op = "finish" /\ holder[i] # NoC /\ holder[i] # cl.c /\ loc[i] = U("p")
+             /\ \E pl \in Cats : ReturnHeld(holder[i], i, pl)
+             /\ UNCHANGED <<calls, taint>>
           \* ---- deviations of listed known findings (only in re-validation; the message is tainted from here on)
           \/ /\ \/ Ev.c # 0 /\ DevRedisWholeSecond(Ev.c, i)
                 \/ Ev.c # 0 /\ DevRedisLifoWindow(Ev.c, i)
